@@ -151,6 +151,8 @@ def check_parse_uri_lookup(cx: Cx, ob: Ob) -> None:
     for c, ev, ctx in queries:
         name = callee_name(c)
         ob.site(f"{where(fn, ev.line)} {fn.qualname}", f"self.trie.{name}(...)")
+        if name not in LONGEST and not any(any(x == c for x in subterms(t_)) for t_, _ in s.returns()):
+            continue  # consulted in a test only (how many keys share a prefix), not what the answer is taken from
         if name not in LONGEST:
             ob.violate(fn.qualname, where(fn, ev.line), f"trie queried with `{name}`, which is not a longest-prefix lookup", witness="nested URI prefixes: the shorter prefix would win", detail=f"api:{name}")
             continue
@@ -168,6 +170,12 @@ def check_parse_uri_lookup(cx: Cx, ob: Ob) -> None:
         if o is None:
             continue
         handlers = [g for g in ctx.guards if g.kind == "except"]
+        if o[0] == "raise" and len(o) > 3 and o[3]:
+            # raised inside the `try` and caught by its own KeyError handler: control continues in the failure
+            # tail, exactly as when the trie itself raises
+            rn = callee_name(o[1]) if op(o[1]) == "call" else (o[1][1].rsplit(".", 1)[-1] if op(o[1]) in ("builtin", "cls", "name") else None)
+            if rn is not None and any(rn == n.split(".")[-1] or cx.model.is_subclass(rn, n.split(".")[-1]) for names in o[3] for n in names):
+                continue
         if o[0] == "raise" or (o[0] == "return" and (is_const(o[1], None) or o[1] == ("tuple", (NONE, NONE)))):
             if not handlers:
                 ob.violate(fn.qualname, where(fn, o[2]), "parse_uri reports failure outside the trie's KeyError handler", witness=describe_path(ctx), detail="failure-outside-handler")
@@ -197,6 +205,29 @@ def check_remainder(cx: Cx, ob: Ob) -> None:
         ob.site(f"{where(fn, line)} {fn.qualname}", f"return ({show(P)[:40]}, {show(I)[:50]})")
         q = [c for c in subterms(t) if op(c) == "call" and op(c[1]) == "attr" and c[1][1] == ("attr", me, "trie")]
         if not q:
+            # a direct table hit: reverse_prefix_map[K] / .get(K) for a key K cut out of the URI.  K is then A
+            # registered prefix of the URI, the longest one only if no longer key extends K - which the path must
+            # have established (exactly one trie key starts with K / no subtrie below K)
+            rpm = ("attr", me, "reverse_prefix_map")
+            K = P[2] if op(P) == "item" and P[1] == rpm else (P[2][0] if op(P) == "call" and callee_name(P) == "get" and op(P[1]) == "attr" and P[1][1] == rpm and P[2] else None)
+            if K is not None and any(x == uri for x in subterms(K)):
+                from ..rules import guard_atoms
+
+                atoms = guard_atoms(ctx.guards)
+                keys_call = ("call", ("attr", ("attr", me, "trie"), "keys"), (K,), ())
+                lenk = ("call", ("builtin", "len"), (keys_call,), ())
+                unique = any((a == ("cmp", "==", lenk, ("const", 1)) and pol is True) or (op(a) == "call" and callee_name(a) in ("has_subtrie",) and a[2] == (K,) and pol is False) for a, pol in atoms)
+                if unique:
+                    ob.site(f"{where(fn, line)} {fn.qualname}", "direct table hit, taken only when no longer key extends it")
+                else:
+                    ob.violate(
+                        fn.qualname,
+                        where(fn, line),
+                        f"parse_uri answers from a direct hit of `{show(K)[:50]}` in reverse_prefix_map without excluding a longer registered URI prefix that extends it: the hit is a matching prefix, not necessarily the longest",
+                        witness="'http://example.org/onto#' (A) and 'http://example.org/onto#GO_' (B): 'http://example.org/onto#GO_1' must compress with B",
+                        detail="not-longest",
+                    )
+                continue
             ob.undecide("success return does not derive from a trie query")
             continue
         Q = q[0]
@@ -319,6 +350,49 @@ def curie_join_check(cx: Cx, ob: Ob, fn_name: str, base_pred, base_desc: str) ->
         success_conditions(ob, fn, ctx, ca[0], line)
     if n == 0:
         ob.undecide(f"{fn_name} has no success return")
+    # the failure tail is reached only after the lookup has been asked: a path that gives up (None / echo / raise)
+    # on the strength of a test of the ARGUMENT alone answers "not convertible" for strings the tables may well know
+    from ..rules import guard_atoms
+
+    arg = ("param", fn.params[1].name)
+
+    def asks(t) -> bool:
+        return isinstance(t, tuple) and any(self_call(x, me) and arg in x[2] for x in subterms(t))
+
+    seen_lines = set()
+    for p in s.paths:
+        o = p.out
+        if o is not None and o[0] == "return" and not (is_const(o[1], None) or o[1] == arg):
+            continue
+        if any(asks(t) for ev in p.events for t in (ev.a, ev.b)) or (o is not None and len(o) > 1 and asks(o[1]) and o[0] == "return"):
+            continue
+        atoms = guard_atoms([g for g in p.events if g.kind == "guard"])
+        if any(a == ("cmp", "is", arg, NONE) and pol is True for a, pol in atoms):
+            continue  # None is not a string: nothing to look up
+        pre = [(a, pol) for a, pol in atoms if any(x == arg for x in subterms(a))]
+        if not pre:
+            continue
+        a0, pol0 = pre[-1]
+        if pol0 is False and op(a0) == "call" and op(a0[1]) == "attr" and a0[1][1] == arg and a0[1][2] == "startswith" and len(a0[2]) == 1:
+            from ..rules import _strip_views
+
+            tab = _strip_views(a0[2][0])
+            while op(tab) == "call" and callee_name(tab) == "keys" and op(tab[1]) == "attr":
+                tab = tab[1][1]
+            if tab in (("attr", me, "reverse_prefix_map"), ("attr", me, "trie")) and fn_name == "compress":
+                ob.site(f"{fn.where} {fn.qualname}", "pre-check: no registered URI prefix is a prefix of the argument")
+                continue
+        line = o[2] if o is not None and len(o) > 2 else fn.node.lineno
+        if line in seen_lines:
+            continue
+        seen_lines.add(line)
+        ob.violate(
+            fn.qualname,
+            where(fn, line),
+            f"{fn_name} gives up when `{'' if pol0 else 'not '}{show(a0)[:60]}` without asking the lookup tables: what is convertible is decided by the registered prefixes alone (the empty string, strings without ':' or '://' can all be registered)",
+            witness="Converter with the URI prefix '' (or 'vocab/terms#'): the table knows the string, the shortcut answers None",
+            detail="failure-without-lookup",
+        )
 
 
 def _direct_curie_parse(a, b, me, arg):
